@@ -19,7 +19,7 @@ TECHNIQUE = ("model-based stateful testing (Hypothesis-generated histories, shru
              "engine id used, foreign discovery msgID refused, and every request the model expects to succeed succeeds")
 RULE = ("case = security level {noAuthNoPriv, authNoPriv MD5/SHA-1, authPriv} x optional configured context engine id x discovery "
         "reply variant {conformant, foreign msgID (+1, -1, random), no bindings, Response instead of Report} x history of 2..30 "
-        "steps from {request(get | getnext | set | walk), advance(dt in 1, 30, 149, 151, 3600, 86400 x k), reboot}; non-trivial = "
+        "steps from {request(get | getnext | set | walk), advance(dt in 1, 30, 149, 151, 3600, 86400 x k), reboot, poll(n in 120..400 requests spaced 0.4..1.3 s)}, discovery Report optionally naming another context engine; non-trivial = "
         ">= 2 requests separated by an advance, or a reboot between requests, or a non-conformant discovery reply; distinct = "
         "SHA-1 of canonical JSON case")
 ASSUMPTIONS = [
@@ -27,7 +27,7 @@ ASSUMPTIONS = [
     "the agent keeps a 150 s window (RFC 3414 3.2 7b) on engine boots and time; boots change on reboot and engine time restarts at 0",
     "after a refused discovery reply the client must still be usable: the next request starts with a new probe",
 ]
-REQUIRED_CLASSES = {"advance>150": 0.30, "reboot": 0.08, "disco_bad": 0.10, "auth": 0.50}
+REQUIRED_CLASSES = {"advance>150": 0.30, "reboot": 0.08, "disco_bad": 0.10, "auth": 0.50, "poller": 0.015, "disco_other_ctx": 0.05}
 
 SCALAR = (1, 3, 6, 1, 2, 1, 1, 5, 0)
 COL = (1, 3, 6, 1, 2, 1, 2, 2, 1, 2)
@@ -56,7 +56,9 @@ def run_case(case, exclude_known=True) -> Result:
     if level_auth:
         classes.add("auth")
     disco = case.get("disco", {"kind": "ok"})
-    if disco["kind"] != "ok":
+    if disco["kind"] == "ok_other_ctx":
+        classes.add("disco_other_ctx")
+    elif disco["kind"] != "ok":
         classes.add("disco_bad")
     st8 = dict(disco_replies=0, rebooted_since_disco=False, bad_disco_done=False)
 
@@ -65,6 +67,12 @@ def run_case(case, exclude_known=True) -> Result:
             return resp
         st8["disco_replies"] += 1
         st8["rebooted_since_disco"] = False
+        if disco["kind"] == "ok_other_ctx":
+            # conformant, but the Report's scoped PDU names another context engine (proxy style)
+            m = vber.parse_message(resp)
+            body = vber.enc_scoped_pdu(b"\x80\x00\x1f\x88\x04some-other-context", b"",
+                                       vber.enc_pdu(vber.PDU_REPORT, m["pdu"]["rid"], 0, 0, m["pdu"]["vbs"]))
+            return agent.build_v3(m["msg_id"], 0, b"", body)
         if disco["kind"] == "ok" or st8["bad_disco_done"]:
             return resp
         st8["bad_disco_done"] = True
@@ -85,12 +93,21 @@ def run_case(case, exclude_known=True) -> Result:
     adv_between = False
     since_last_req = 0.0
     reboot_between = False
-    nontrivial = disco["kind"] != "ok"
+    nontrivial = disco["kind"] not in ("ok",)
     with vclock.virtual(case.get("start", 1_700_000_000)) as vt:
-        agent, client = vworld.make_world(proto, dict(DB), request_cap=300)
+        agent, client = vworld.make_world(proto, dict(DB), request_cap=5000)
         agent.mangle = mangle
         head = "%s%s" % (vworld.proto_label(proto), " ctx-engine=%s" % case["ctx_engine"] if case.get("ctx_engine") else "")
-        steps = list(case["steps"]) + [["req", "get"]]
+        steps = []
+        for st_ in case["steps"]:
+            if st_[0] == "poll":
+                # a poller: n requests spaced by a non-whole number of seconds
+                classes.add("poller")
+                for _ in range(st_[1]):
+                    steps += [["req", "get"], ["adv", st_[2]]]
+            else:
+                steps.append(st_)
+        steps.append(["req", "get"])
         for i, step in enumerate(steps):
             where = "%s step %d %r" % (head, i, step)
             if step[0] == "adv":
@@ -108,14 +125,14 @@ def run_case(case, exclude_known=True) -> Result:
                 continue
             op = step[1]
             log0 = len(agent.log)
-            expect_bad_disco = disco["kind"] != "ok" and not st8["bad_disco_done"]
+            expect_bad_disco = disco["kind"] not in ("ok", "ok_other_ctx") and not st8["bad_disco_done"]
             exc = res = None
             try:
                 res = vworld.run(_req(client, op))
             except vagent.AgentInternalError as e:
                 return Result("%s: the client sent something the reference agent cannot handle: %s" % (where, e), nontrivial, sorted(classes))
             except vagent.CapExceeded:
-                return Result("%s: more than 300 datagrams" % where, nontrivial, sorted(classes))
+                return Result("%s: more than 5000 datagrams" % where, nontrivial, sorted(classes))
             except Exception as e:  # noqa
                 exc = e
             new = agent.log[log0:]
@@ -200,11 +217,14 @@ def cases(draw, max_steps=12):
     if draw(st.integers(0, 3)) != 0:
         # three histories in four have no reboot, so that the search is not stopped by the known reboot finding
         steps = [s for s in steps if s[0] != "reboot"] or [["req", "get"], ["adv", 151]]
+    if draw(st.integers(0, 19)) == 0:
+        n, dt = draw(st.sampled_from([(330, 0.5), (200, 0.9), (140, 1.3)]))
+        steps = steps[:3] + [["poll", n, dt]] + steps[3:5]
     case = dict(proto=proto, steps=steps,
                 start=draw(st.sampled_from([1_700_000_000, 1_700_000_000.75, 5, 2 ** 31 - 10 ** 8])))
     if draw(st.integers(0, 4)) == 0:
         case["ctx_engine"] = draw(st.sampled_from([b"\x80\x00\x1f\x88\x04other-ctx", b"\x80\x00\x00\x09\x05" + b"\x00" * 12])).hex()
-    k = draw(st.sampled_from(["ok", "ok", "ok", "ok", "msgid", "msgid", "novb", "response"]))
+    k = draw(st.sampled_from(["ok", "ok", "ok", "ok_other_ctx", "msgid", "msgid", "novb", "response"]))
     case["disco"] = dict(kind=k)
     if k == "msgid":
         case["disco"]["delta"] = draw(st.sampled_from([1, -1, 4711, -99999]))
